@@ -725,3 +725,839 @@ Lemma demo_runs :
   exists p, run (new_pool cfg_tiny 1 [(0, (0, 100000000)); (1, (0, 100000000))] 1000000) demo_history = Ok p /\
             map (fun kv => (fst kv, map thash (items (snd kv)))) (pending p) = [(0, [6; 2])] /\ pending_executableb p = true.
 Proof. eexists. split; [vm_compute; reflexivity|]. vm_compute. auto. Qed.
+
+(* ================================================================ all = pending ∪ queue as an invariant *)
+Lemma all_exact_union : forall p, all_exact p -> all_is_union p.
+Proof.
+  intros p [[W1 W2] NO] h. split.
+  - intros [t Ht]. exists t. split; [apply (NO _ _ Ht)|apply (W1 _ _ Ht)].
+  - intros [t [Hl Hh]]. exists t. rewrite <- Hh. apply W2; auto.
+Qed.
+
+(* J p S: the structural invariant, all_wf, and every entry of pool.all is listed or one of the (in flight) S *)
+Definition J (p : pool) (S : list tx) : Prop :=
+  unique_nonce p /\ all_wf p /\ (forall t, assoc (thash t) (all p) = Some t -> listed p t \/ In t S).
+Lemma J_exact : forall p, J p [] <-> unique_nonce p /\ all_exact p.
+Proof.
+  intros p. split.
+  - intros (U & W & O). split; auto. split; auto. intros h t Ht. destruct W as [W1 W2]. pose proof (W1 _ _ Ht) as E. subst h.
+    destruct (O _ Ht) as [L|[]]; auto.
+  - intros (U & W & O). split; [|split]; auto. intros t Ht. left. eapply O; eauto.
+Qed.
+Lemma J_weaken : forall p S S', J p S -> incl S S' -> J p S'.
+Proof. intros p S S' (U & W & O) I. split; [|split]; auto. intros t Ht. destruct (O t Ht); auto. Qed.
+Lemma J_same : forall p q S, pending q = pending p -> queue q = queue p -> all q = all p -> J p S -> J q S.
+Proof.
+  intros p q S Hp Hq Ha (U & W & O). split; [eapply un_same; eauto|]. unfold all_wf, listed, in_pending, in_queue in *. rewrite Hp, Hq, Ha. auto.
+Qed.
+
+Lemma listed_keyed : forall p t, unique_nonce p -> listed p t ->
+  (exists l, assoc (tfrom t) (pending p) = Some l /\ In t (items l)) \/ (exists l, assoc (tfrom t) (queue p) = Some l /\ In t (items l)).
+Proof.
+  intros p t (HP & HQ & _) [b [(l & Hl & Hin)|(l & Hl & Hin)]].
+  - left. destruct (HP _ _ Hl) as [_ Hf]. rewrite Forall_forall in Hf. rewrite (Hf _ Hin). eauto.
+  - right. destruct (HQ _ _ Hl) as [_ Hf]. rewrite Forall_forall in Hf. rewrite (Hf _ Hin). eauto.
+Qed.
+
+(* what leaves queue[a] / pending[a] is not listed any more *)
+Lemma unlisted_after_qshrink : forall p q a l l' x, unique_nonce p -> assoc a (queue p) = Some l -> In x (items l) -> ~ In x (items l') ->
+  pending q = pending p -> queue q = assoc_set a l' (queue p) -> unique_nonce q -> ~ listed q x.
+Proof.
+  intros p q a l l' x Hun Ha Hx Hnx Hp Hq Huq Hl. destruct Hun as (HP & HQ & HD).
+  destruct (HQ _ _ Ha) as [_ Hf]. rewrite Forall_forall in Hf. pose proof (Hf _ Hx) as Hfrom.
+  destruct (listed_keyed _ _ Huq Hl) as [(lp & Hlp & Hin)|(lq & Hlq & Hin)]; rewrite Hfrom in *.
+  - rewrite Hp in Hlp. apply (HD a x x); [exists lp; auto|exists l; auto|reflexivity].
+  - rewrite Hq, assoc_set_same in Hlq. inversion Hlq; subst. auto.
+Qed.
+Lemma unlisted_after_pshrink : forall p q a l l' x, unique_nonce p -> assoc a (pending p) = Some l -> In x (items l) -> ~ In x (items l') ->
+  queue q = queue p -> pending q = assoc_set a l' (pending p) -> unique_nonce q -> ~ listed q x.
+Proof.
+  intros p q a l l' x Hun Ha Hx Hnx Hq Hp Huq Hl. destruct Hun as (HP & HQ & HD).
+  destruct (HP _ _ Ha) as [_ Hf]. rewrite Forall_forall in Hf. pose proof (Hf _ Hx) as Hfrom.
+  destruct (listed_keyed _ _ Huq Hl) as [(lp & Hlp & Hin)|(lq & Hlq & Hin)]; rewrite Hfrom in *.
+  - rewrite Hp, assoc_set_same in Hlp. inversion Hlp; subst. auto.
+  - rewrite Hq in Hlq. apply (HD a x x); [exists l; auto|exists lq; auto|reflexivity].
+Qed.
+
+(* shrink queue[a] / pending[a]: what is not kept (R) is in flight *)
+Lemma J_qshrink : forall p q a l l' ex R S, J p S -> assoc a (queue p) = Some l -> split_ok (items l) (items l') ex ->
+  (forall t, In t (items l) -> In t (items l') \/ In t R) ->
+  pending q = pending p -> queue q = assoc_set a l' (queue p) -> all q = all p -> J q (S ++ R).
+Proof.
+  intros p q a l l' ex R S (U & [W1 W2] & O) Ha Hsp Hcov Hp Hq Hall.
+  assert (Uq : unique_nonce q) by (eapply un_qshrink with (p := p); eauto).
+  destruct U as (HP & HQ & HD). destruct (HQ _ _ Ha) as [Hs _]. destruct (Hsp Hs) as (_ & I & _ & _).
+  assert (Lqp : forall t, listed q t -> listed p t).
+  { intros t [b [(lp & Hlp & Hin)|(lq & Hlq & Hin)]].
+    - exists b. left. exists lp. rewrite <- Hp. auto.
+    - destruct (Z.eq_dec b a) as [->|Hne].
+      + rewrite Hq, assoc_set_same in Hlq. inversion Hlq; subst. exists a. right. exists l. auto.
+      + rewrite Hq, assoc_set_other in Hlq by auto. exists b. right. exists lq. auto. }
+  split; [exact Uq|split; [split|]].
+  - rewrite Hall. exact W1.
+  - intros t Ht. rewrite Hall. apply W2. auto.
+  - intros t Ht. rewrite Hall in Ht. destruct (O t Ht) as [[b [(lp & Hlp & Hin)|(lq & Hlq & Hin)]]|Hs']; [| |right; apply in_or_app; auto].
+    + left. exists b. left. exists lp. rewrite Hp. auto.
+    + destruct (Z.eq_dec b a) as [->|Hne].
+      * rewrite Ha in Hlq. inversion Hlq; subst. destruct (Hcov _ Hin) as [H1|H1]; [|right; apply in_or_app; auto].
+        left. exists a. right. exists l'. rewrite Hq, assoc_set_same. auto.
+      * left. exists b. right. exists lq. rewrite Hq, assoc_set_other by auto. auto.
+Qed.
+Lemma J_pshrink : forall p q a l l' ex R S, J p S -> assoc a (pending p) = Some l -> split_ok (items l) (items l') ex ->
+  (forall t, In t (items l) -> In t (items l') \/ In t R) ->
+  queue q = queue p -> pending q = assoc_set a l' (pending p) -> all q = all p -> J q (S ++ R).
+Proof.
+  intros p q a l l' ex R S (U & [W1 W2] & O) Ha Hsp Hcov Hq Hp Hall.
+  assert (Uq : unique_nonce q) by (eapply un_pshrink with (p := p); eauto).
+  destruct U as (HP & HQ & HD). destruct (HP _ _ Ha) as [Hs _]. destruct (Hsp Hs) as (_ & I & _ & _).
+  assert (Lqp : forall t, listed q t -> listed p t).
+  { intros t [b [(lp & Hlp & Hin)|(lq & Hlq & Hin)]].
+    - destruct (Z.eq_dec b a) as [->|Hne].
+      + rewrite Hp, assoc_set_same in Hlp. inversion Hlp; subst. exists a. left. exists l. auto.
+      + rewrite Hp, assoc_set_other in Hlp by auto. exists b. left. exists lp. auto.
+    - exists b. right. exists lq. rewrite <- Hq. auto. }
+  split; [exact Uq|split; [split|]].
+  - rewrite Hall. exact W1.
+  - intros t Ht. rewrite Hall. apply W2. auto.
+  - intros t Ht. rewrite Hall in Ht. destruct (O t Ht) as [[b [(lp & Hlp & Hin)|(lq & Hlq & Hin)]]|Hs']; [| |right; apply in_or_app; auto].
+    + destruct (Z.eq_dec b a) as [->|Hne].
+      * rewrite Ha in Hlp. inversion Hlp; subst. destruct (Hcov _ Hin) as [H1|H1]; [|right; apply in_or_app; auto].
+        left. exists a. left. exists l'. rewrite Hp, assoc_set_same. auto.
+      * left. exists b. left. exists lp. rewrite Hp, assoc_set_other by auto. auto.
+    + left. exists b. right. exists lq. rewrite Hq. auto.
+Qed.
+(* delete an empty list entry *)
+Lemma J_qdel : forall p q a S, J p S -> (forall l, assoc a (queue p) = Some l -> items l = []) ->
+  pending q = pending p -> queue q = assoc_del a (queue p) -> all q = all p -> J q S.
+Proof.
+  intros p q a S (U & [W1 W2] & O) He Hp Hq Hall.
+  assert (Lpq : forall t, listed p t -> listed q t).
+  { intros t [b [(lp & Hlp & Hin)|(lq & Hlq & Hin)]].
+    - exists b. left. exists lp. rewrite Hp. auto.
+    - destruct (Z.eq_dec b a) as [->|Hne]; [rewrite (He _ Hlq) in Hin; destruct Hin|].
+      exists b. right. exists lq. rewrite Hq, assoc_del_other by auto. auto. }
+  assert (Lqp : forall t, listed q t -> listed p t).
+  { intros t [b [(lp & Hlp & Hin)|(lq & Hlq & Hin)]].
+    - exists b. left. exists lp. rewrite <- Hp. auto.
+    - destruct (Z.eq_dec b a) as [->|Hne]; [rewrite Hq, assoc_del_same in Hlq; discriminate|].
+      rewrite Hq, assoc_del_other in Hlq by auto. exists b. right. exists lq. auto. }
+  split; [eapply un_qdel; eauto|split; [split|]].
+  - rewrite Hall. exact W1.
+  - intros t Ht. rewrite Hall. auto.
+  - intros t Ht. rewrite Hall in Ht. destruct (O t Ht); auto.
+Qed.
+Lemma J_pdel : forall p q a S, J p S -> (forall l, assoc a (pending p) = Some l -> items l = []) ->
+  queue q = queue p -> pending q = assoc_del a (pending p) -> all q = all p -> J q S.
+Proof.
+  intros p q a S (U & [W1 W2] & O) He Hq Hp Hall.
+  assert (Lpq : forall t, listed p t -> listed q t).
+  { intros t [b [(lp & Hlp & Hin)|(lq & Hlq & Hin)]].
+    - destruct (Z.eq_dec b a) as [->|Hne]; [rewrite (He _ Hlp) in Hin; destruct Hin|].
+      exists b. left. exists lp. rewrite Hp, assoc_del_other by auto. auto.
+    - exists b. right. exists lq. rewrite Hq. auto. }
+  assert (Lqp : forall t, listed q t -> listed p t).
+  { intros t [b [(lp & Hlp & Hin)|(lq & Hlq & Hin)]].
+    - destruct (Z.eq_dec b a) as [->|Hne]; [rewrite Hp, assoc_del_same in Hlp; discriminate|].
+      rewrite Hp, assoc_del_other in Hlp by auto. exists b. left. exists lp. auto.
+    - exists b. right. exists lq. rewrite <- Hq. auto. }
+  split; [eapply un_pdel; eauto|split; [split|]].
+  - rewrite Hall. exact W1.
+  - intros t Ht. rewrite Hall. auto.
+  - intros t Ht. rewrite Hall in Ht. destruct (O t Ht); auto.
+Qed.
+
+(* delete(pool.all, hash) of in-flight transactions *)
+Lemma drop_all_all : forall D p h, assoc h (all (drop_all p D)) = if existsb (fun d => thash d =? h) D then None else assoc h (all p).
+Proof.
+  unfold drop_all. induction D as [|d D IH]; intros p h; cbn [fold_left existsb]; auto.
+  rewrite IH. cbn [all all_drop set_all set_priced]. destruct (existsb (fun d0 => thash d0 =? h) D); [rewrite orb_true_r; auto|].
+  rewrite orb_false_r. destruct (thash d =? h) eqn:E.
+  - assert (h = thash d) by lia. subst. apply assoc_del_same.
+  - apply assoc_del_other. lia.
+Qed.
+Lemma J_dropall : forall p D S S', J p S ->
+  (forall x, In x D -> assoc (thash x) (all p) = Some x /\ ~ listed p x) ->
+  (forall t, In t S -> In t S' \/ In t D) -> J (drop_all p D) S'.
+Proof.
+  intros p D S S' (U & [W1 W2] & O) HD HS. destruct (drop_all_pq D p) as [Pp Pq].
+  assert (Ll : forall t, listed (drop_all p D) t <-> listed p t).
+  { intros t. unfold listed, in_pending, in_queue. rewrite Pp, Pq. tauto. }
+  split; [eapply un_same; eauto|split; [split|]].
+  - intros h t Ht. rewrite drop_all_all in Ht. destruct (existsb _ D); [discriminate|]. eauto.
+  - intros t Ht. apply Ll in Ht. rewrite drop_all_all. destruct (existsb (fun d => thash d =? thash t) D) eqn:E; auto.
+    apply existsb_exists in E. destruct E as (d & Hd & Hh). destruct (HD _ Hd) as [A B].
+    assert (thash d = thash t) by lia. rewrite H in A. rewrite (W2 _ Ht) in A. inversion A; subst. contradiction.
+  - intros t Ht. rewrite drop_all_all in Ht. destruct (existsb (fun d => thash d =? thash t) D) eqn:E; [discriminate|].
+    destruct (O t Ht) as [L|Hs]; [left; apply Ll; auto|]. destruct (HS _ Hs) as [H1|H1]; auto.
+    exfalso. assert (existsb (fun d => thash d =? thash t) D = true); [|congruence].
+    apply existsb_exists. exists t. split; auto. lia.
+Qed.
+
+Lemma ins_in_conv : forall x l u, In u l -> tnonce u <> tnonce x -> In u (ins_tx x l).
+Proof.
+  induction l as [|w l IH]; intros u Hu Hn; [destruct Hu|]. cbn [ins_tx].
+  destruct (tnonce x <? tnonce w); [right; auto|]. destruct (tnonce x =? tnonce w) eqn:E.
+  - destruct Hu as [->|Hu]; [lia|right; auto].
+  - destruct Hu as [->|Hu]; [left; auto|right; auto].
+Qed.
+Lemma ins_in_self : forall x l, In x (ins_tx x l).
+Proof. induction l as [|w l IH]; cbn [ins_tx]; [left; auto|]. destruct (tnonce x <? tnonce w); [left; auto|]. destruct (tnonce x =? tnonce w); [left; auto|right; auto]. Qed.
+Lemma tl_get_some : forall l n o, tl_get l n = Some o -> In o (items l) /\ tnonce o = n.
+Proof. intros l n o H. unfold tl_get in H. apply find_some in H. destruct H. split; auto. lia. Qed.
+Lemma tl_get_none : forall l n u, tl_get l n = None -> In u (items l) -> tnonce u <> n.
+Proof. intros l n u H Hu. unfold tl_get in H. pose proof (find_none _ _ H u Hu) as E. cbn in E. lia. Qed.
+
+(* insert x into queue[a] (tl_add accepted it): x becomes listed, the same-nonce entry it replaces (if any) leaves
+   the list and pool.all.  x must be new to the lists and its hash must not be that of a listed transaction. *)
+Lemma J_qins : forall p q x s l' S, J p S -> (forall u, in_pending p (tfrom x) u -> tnonce u <> tnonce x) ->
+  (forall u, listed p u -> thash u <> thash x) ->
+  items l' = ins_tx x (items (list_of (queue p) (tfrom x) s)) ->
+  pending q = pending p -> queue q = assoc_set (tfrom x) l' (queue p) ->
+  (forall h, assoc h (all q) = assoc h (assoc_set (thash x) x (match tl_get (list_of (queue p) (tfrom x) s) (tnonce x) with Some o => assoc_del (thash o) (all p) | None => all p end))) ->
+  listed q x /\ J q S /\ (forall u, listed q u -> u = x \/ listed p u) /\
+  (forall r, assoc (thash r) (all p) = Some r -> ~ listed p r -> thash r <> thash x -> assoc (thash r) (all q) = Some r).
+Proof.
+  intros p q x s l' S (U & [W1 W2] & O) Hnp Hfr Hit Hp Hq Hall.
+  assert (Uq : unique_nonce q) by (eapply un_qadd with (p := p); eauto).
+  set (a := tfrom x) in *. set (l0 := list_of (queue p) a s) in *.
+  destruct (list_of_ok p a s U) as [[Ls0 Lf0] _]. fold l0 in Ls0, Lf0.
+  assert (Hl0 : forall u, In u (items l0) -> in_queue p a u).
+  { intros u Hu. unfold l0, list_of in Hu. destruct (assoc a (queue p)) as [lq|] eqn:E; [exists lq; auto|destruct Hu]. }
+  assert (Hl0' : forall u, in_queue p a u -> In u (items l0)).
+  { intros u (lq & Hlq & Hu). unfold l0, list_of. rewrite Hlq. auto. }
+  (* listed in q *)
+  assert (Lq1 : forall t, listed q t -> t = x \/ (listed p t /\ ~ (In t (items l0) /\ tnonce t = tnonce x))).
+  { intros t [b [(lp & Hlp & Hin)|(lq & Hlq & Hin)]].
+    - right. split; [exists b; left; exists lp; rewrite <- Hp; auto|]. intros [H1 H2].
+      destruct U as (HP & HQ & HD). rewrite Hp in Hlp. destruct (HP _ _ Hlp) as [_ Hf]. rewrite Forall_forall in Hf.
+      rewrite Forall_forall in Lf0. assert (b = a) by (rewrite <- (Hf _ Hin), (Lf0 _ H1); auto). subst b.
+      apply (Hnp t); auto. exists lp; auto.
+    - destruct (Z.eq_dec b a) as [->|Hne].
+      + rewrite Hq, assoc_set_same in Hlq. inversion Hlq; subst. rewrite Hit in Hin. apply ins_in in Hin; auto.
+        destruct Hin as [->|[H1 H2]]; auto. right. split; [exists a; right; apply Hl0; auto|]. intros [_ H3]. auto.
+      + rewrite Hq, assoc_set_other in Hlq by auto. right. split; [exists b; right; exists lq; auto|]. intros [H1 H2].
+        destruct U as (HP & HQ & HD). destruct (HQ _ _ Hlq) as [_ Hf]. rewrite Forall_forall in Hf, Lf0.
+        apply Hne. rewrite <- (Hf _ Hin), (Lf0 _ H1); auto. }
+  assert (Lq2 : forall t, listed p t -> ~ (In t (items l0) /\ tnonce t = tnonce x) -> listed q t).
+  { intros t [b [(lp & Hlp & Hin)|(lq & Hlq & Hin)]] Hno.
+    - exists b. left. exists lp. rewrite Hp. auto.
+    - destruct (Z.eq_dec b a) as [->|Hne].
+      + exists a. right. exists l'. rewrite Hq, assoc_set_same. split; auto. rewrite Hit. apply ins_in_conv.
+        * apply Hl0'. exists lq; auto.
+        * intros E. apply Hno. split; auto. apply Hl0'. exists lq; auto.
+      + exists b. right. exists lq. rewrite Hq, assoc_set_other by auto. auto. }
+  assert (Lqx : listed q x).
+  { exists a. right. exists l'. rewrite Hq, assoc_set_same. split; auto. rewrite Hit. apply ins_in_self. }
+  (* pool.all in q *)
+  assert (Aq : forall h, h <> thash x -> assoc h (all q) =
+                 match tl_get l0 (tnonce x) with Some o => if h =? thash o then None else assoc h (all p) | None => assoc h (all p) end).
+  { intros h Hne. rewrite Hall, assoc_set_other by auto. destruct (tl_get l0 (tnonce x)) as [o|]; auto.
+    destruct (h =? thash o) eqn:E; [assert (h = thash o) by lia; subst; apply assoc_del_same|apply assoc_del_other; lia]. }
+  assert (Aqx : assoc (thash x) (all q) = Some x) by (rewrite Hall; apply assoc_set_same).
+  split; [exact Lqx|]. split; [|split].
+  2:{ intros u Hu. destruct (Lq1 _ Hu) as [->|[L _]]; auto. }
+  2:{ intros r Hr Hnl Hne. rewrite Aq by auto. destruct (tl_get l0 (tnonce x)) as [o|] eqn:G; auto.
+      destruct (thash r =? thash o) eqn:E; auto. exfalso. apply tl_get_some in G. destruct G as [Go Gn].
+      assert (Lo : listed p o) by (exists a; right; apply Hl0; auto). pose proof (W2 _ Lo) as A2.
+      assert (thash r = thash o) by lia. rewrite H in Hr. assert (r = o) by congruence. subst. auto. }
+  split; [exact Uq|split; [split|]].
+  - intros h t Ht. destruct (Z.eq_dec h (thash x)) as [->|Hne]; [rewrite Aqx in Ht; inversion Ht; auto|].
+    rewrite Aq in Ht by auto. destruct (tl_get l0 (tnonce x)) as [o|]; [destruct (h =? thash o); [discriminate|]|]; eauto.
+  - intros t Ht. destruct (Lq1 _ Ht) as [->|[Lp Hno]]; auto.
+    rewrite Aq by (apply Hfr; auto). destruct (tl_get l0 (tnonce x)) as [o|] eqn:G; [|apply W2; auto].
+    destruct (thash t =? thash o) eqn:E; [|apply W2; auto]. exfalso.
+    apply tl_get_some in G. destruct G as [Go Gn]. assert (Lo : listed p o) by (exists a; right; apply Hl0; auto).
+    assert (t = o). { pose proof (W2 _ Lp) as A1. pose proof (W2 _ Lo) as A2. assert (thash t = thash o) by lia. rewrite H in A1. congruence. }
+    subst. apply Hno. auto.
+  - intros t Ht. destruct (Z.eq_dec (thash t) (thash x)) as [E|Hne]; [rewrite E, Aqx in Ht; inversion Ht; subst; auto|].
+    rewrite Aq in Ht by auto. destruct (tl_get l0 (tnonce x)) as [o|] eqn:G.
+    + destruct (thash t =? thash o) eqn:E; [discriminate|]. destruct (O t Ht) as [Lp|Hs]; auto. left. apply Lq2; auto.
+      intros [H1 H2]. apply tl_get_some in G. destruct G as [Go Gn].
+      assert (t = o) by (eapply ns_unique; eauto; lia). subst. lia.
+    + destruct (O t Ht) as [Lp|Hs]; auto. left. apply Lq2; auto. intros [H1 H2]. apply (tl_get_none _ _ _ G H1). auto.
+Qed.
+
+Lemma J_pins : forall p q x s l' S, J p S -> (forall u, in_queue p (tfrom x) u -> tnonce u <> tnonce x) ->
+  (forall u, listed p u -> thash u <> thash x) ->
+  items l' = ins_tx x (items (list_of (pending p) (tfrom x) s)) ->
+  queue q = queue p -> pending q = assoc_set (tfrom x) l' (pending p) ->
+  (forall h, assoc h (all q) = assoc h (assoc_set (thash x) x (match tl_get (list_of (pending p) (tfrom x) s) (tnonce x) with Some o => assoc_del (thash o) (all p) | None => all p end))) ->
+  listed q x /\ J q S /\ (forall u, listed q u -> u = x \/ listed p u) /\
+  (forall r, assoc (thash r) (all p) = Some r -> ~ listed p r -> thash r <> thash x -> assoc (thash r) (all q) = Some r).
+Proof.
+  intros p q x s l' S (U & [W1 W2] & O) Hnp Hfr Hit Hq Hp Hall.
+  assert (Uq : unique_nonce q) by (eapply un_padd with (p := p) (t := x); eauto).
+  set (a := tfrom x) in *. set (l0 := list_of (pending p) a s) in *.
+  destruct (list_of_ok p a s U) as [_ [Ls0 Lf0]]. fold l0 in Ls0, Lf0.
+  assert (Hl0 : forall u, In u (items l0) -> in_pending p a u).
+  { intros u Hu. unfold l0, list_of in Hu. destruct (assoc a (pending p)) as [lq|] eqn:E; [exists lq; auto|destruct Hu]. }
+  assert (Hl0' : forall u, in_pending p a u -> In u (items l0)).
+  { intros u (lq & Hlq & Hu). unfold l0, list_of. rewrite Hlq. auto. }
+  assert (Lq1 : forall t, listed q t -> t = x \/ (listed p t /\ ~ (In t (items l0) /\ tnonce t = tnonce x))).
+  { intros t [b [(lp & Hlp & Hin)|(lq & Hlq & Hin)]].
+    - destruct (Z.eq_dec b a) as [->|Hne].
+      + rewrite Hp, assoc_set_same in Hlp. inversion Hlp; subst. rewrite Hit in Hin. apply ins_in in Hin; auto.
+        destruct Hin as [->|[H1 H2]]; auto. right. split; [exists a; left; apply Hl0; auto|]. intros [_ H3]. auto.
+      + rewrite Hp, assoc_set_other in Hlp by auto. right. split; [exists b; left; exists lp; auto|]. intros [H1 H2].
+        destruct U as (HP & HQ & HD). destruct (HP _ _ Hlp) as [_ Hf]. rewrite Forall_forall in Hf, Lf0.
+        apply Hne. rewrite <- (Hf _ Hin), (Lf0 _ H1); auto.
+    - right. split; [exists b; right; exists lq; rewrite <- Hq; auto|]. intros [H1 H2].
+      destruct U as (HP & HQ & HD). rewrite Hq in Hlq. destruct (HQ _ _ Hlq) as [_ Hf]. rewrite Forall_forall in Hf.
+      rewrite Forall_forall in Lf0. assert (b = a) by (rewrite <- (Hf _ Hin), (Lf0 _ H1); auto). subst b.
+      apply (Hnp t); auto. exists lq; auto. }
+  assert (Lq2 : forall t, listed p t -> ~ (In t (items l0) /\ tnonce t = tnonce x) -> listed q t).
+  { intros t [b [(lp & Hlp & Hin)|(lq & Hlq & Hin)]] Hno.
+    - destruct (Z.eq_dec b a) as [->|Hne].
+      + exists a. left. exists l'. rewrite Hp, assoc_set_same. split; auto. rewrite Hit. apply ins_in_conv.
+        * apply Hl0'. exists lp; auto.
+        * intros E. apply Hno. split; auto. apply Hl0'. exists lp; auto.
+      + exists b. left. exists lp. rewrite Hp, assoc_set_other by auto. auto.
+    - exists b. right. exists lq. rewrite Hq. auto. }
+  assert (Lqx : listed q x).
+  { exists a. left. exists l'. rewrite Hp, assoc_set_same. split; auto. rewrite Hit. apply ins_in_self. }
+  assert (Aq : forall h, h <> thash x -> assoc h (all q) =
+                 match tl_get l0 (tnonce x) with Some o => if h =? thash o then None else assoc h (all p) | None => assoc h (all p) end).
+  { intros h Hne. rewrite Hall, assoc_set_other by auto. destruct (tl_get l0 (tnonce x)) as [o|]; auto.
+    destruct (h =? thash o) eqn:E; [assert (h = thash o) by lia; subst; apply assoc_del_same|apply assoc_del_other; lia]. }
+  assert (Aqx : assoc (thash x) (all q) = Some x) by (rewrite Hall; apply assoc_set_same).
+  split; [exact Lqx|]. split; [|split].
+  2:{ intros u Hu. destruct (Lq1 _ Hu) as [->|[L _]]; auto. }
+  2:{ intros r Hr Hnl Hne. rewrite Aq by auto. destruct (tl_get l0 (tnonce x)) as [o|] eqn:G; auto.
+      destruct (thash r =? thash o) eqn:E; auto. exfalso. apply tl_get_some in G. destruct G as [Go Gn].
+      assert (Lo : listed p o) by (exists a; left; apply Hl0; auto). pose proof (W2 _ Lo) as A2.
+      assert (thash r = thash o) by lia. rewrite H in Hr. assert (r = o) by congruence. subst. auto. }
+  split; [exact Uq|split; [split|]].
+  - intros h t Ht. destruct (Z.eq_dec h (thash x)) as [->|Hne]; [rewrite Aqx in Ht; inversion Ht; auto|].
+    rewrite Aq in Ht by auto. destruct (tl_get l0 (tnonce x)) as [o|]; [destruct (h =? thash o); [discriminate|]|]; eauto.
+  - intros t Ht. destruct (Lq1 _ Ht) as [->|[Lp Hno]]; auto.
+    rewrite Aq by (apply Hfr; auto). destruct (tl_get l0 (tnonce x)) as [o|] eqn:G; [|apply W2; auto].
+    destruct (thash t =? thash o) eqn:E; [|apply W2; auto]. exfalso.
+    apply tl_get_some in G. destruct G as [Go Gn]. assert (Lo : listed p o) by (exists a; left; apply Hl0; auto).
+    assert (t = o). { pose proof (W2 _ Lp) as A1. pose proof (W2 _ Lo) as A2. assert (thash t = thash o) by lia. rewrite H in A1. congruence. }
+    subst. apply Hno. auto.
+  - intros t Ht. destruct (Z.eq_dec (thash t) (thash x)) as [E|Hne]; [rewrite E, Aqx in Ht; inversion Ht; subst; auto|].
+    rewrite Aq in Ht by auto. destruct (tl_get l0 (tnonce x)) as [o|] eqn:G.
+    + destruct (thash t =? thash o) eqn:E; [discriminate|]. destruct (O t Ht) as [Lp|Hs]; auto. left. apply Lq2; auto.
+      intros [H1 H2]. apply tl_get_some in G. destruct G as [Go Gn].
+      assert (t = o) by (eapply ns_unique; eauto; lia). subst. lia.
+    + destruct (O t Ht) as [Lp|Hs]; auto. left. apply Lq2; auto. intros [H1 H2]. apply (tl_get_none _ _ _ G H1). auto.
+Qed.
+
+Lemma assoc_set_id : forall A k (v : A) m h, assoc k m = Some v -> assoc h (assoc_set k v m) = assoc h m.
+Proof. intros A k v m h H. destruct (Z.eq_dec h k) as [->|Hne]; [rewrite assoc_set_same; auto|apply assoc_set_other; auto]. Qed.
+Lemma J_prune : forall p S S', J p S -> (forall t, In t S -> In t S' \/ listed p t) -> J p S'.
+Proof. intros p S S' (U & W & O) H. split; [|split]; auto. intros t Ht. destruct (O t Ht) as [L|Hs]; auto. destruct (H _ Hs); auto. Qed.
+Lemma fresh_from_none : forall p x, all_wf p -> assoc (thash x) (all p) = None -> forall u, listed p u -> thash u <> thash x.
+Proof. intros p x [W1 W2] Hn u Hu E. pose proof (W2 _ Hu) as A. rewrite E, Hn in A. discriminate. Qed.
+Lemma fresh_from_inflight : forall p x, all_wf p -> assoc (thash x) (all p) = Some x -> ~ listed p x -> forall u, listed p u -> thash u <> thash x.
+Proof. intros p x [W1 W2] Hx Hnl u Hu E. pose proof (W2 _ Hu) as A. rewrite E, Hx in A. inversion A; subst. auto. Qed.
+
+Lemma enqueue_J : forall p x S, J p S -> (forall u, in_pending p (tfrom x) u -> tnonce u <> tnonce x) ->
+  (forall u, listed p u -> thash u <> thash x) ->
+  J (snd (enqueue_tx p x)) S /\ pending (snd (enqueue_tx p x)) = pending p /\
+  (forall u, listed (snd (enqueue_tx p x)) u -> u = x \/ listed p u) /\
+  (forall r, assoc (thash r) (all p) = Some r -> ~ listed p r -> thash r <> thash x -> assoc (thash r) (all (snd (enqueue_tx p x))) = Some r) /\
+  ((forall u, in_queue p (tfrom x) u -> tnonce u <> tnonce x) -> listed (snd (enqueue_tx p x)) x) /\
+  (forall b, fst (enqueue_tx p x) = inl b -> listed (snd (enqueue_tx p x)) x).
+Proof.
+  intros p x S HJ Hnp Hfr. unfold enqueue_tx.
+  change (match assoc (tfrom x) (queue p) with Some l => l | None => new_txlist false end) with (list_of (queue p) (tfrom x) false).
+  destruct (tl_add (list_of (queue p) (tfrom x) false) x (c_bump (conf p))) as [[ins old] l'] eqn:E. destruct ins.
+  - pose proof (tl_add_ok _ _ _ _ _ E) as [Hit Hold]. cbn [snd fst].
+    match goal with |- J ?Q _ /\ _ => set (q := Q) end.
+    destruct (J_qins p q x false l' S HJ Hnp Hfr Hit) as (Lx & Jq & F1 & F2).
+    + subst q. destruct old; reflexivity.
+    + subst q. destruct old; reflexivity.
+    + intros h. subst q. subst old. destruct (tl_get (list_of (queue p) (tfrom x) false) (tnonce x)); reflexivity.
+    + split; [exact Jq|]. split; [subst q; destruct old; reflexivity|]. split; [exact F1|]. split; [exact F2|]. split; intros; exact Lx.
+  - pose proof (tl_add_reject _ _ _ _ _ E) as ->. cbn [snd fst]. unfold list_of in *.
+    destruct (assoc (tfrom x) (queue p)) as [l|] eqn:Q; [|exfalso; eapply tl_add_empty_accepts; eauto].
+    set (q := set_queue p (assoc_set (tfrom x) l (queue p))).
+    assert (Lq : forall u, listed q u <-> listed p u).
+    { intros u. unfold listed, in_pending, in_queue, q. cbn [pending queue set_queue].
+      split; intros [b H]; exists b; destruct H as [H|(lq & Hlq & Hin)]; auto; right; exists lq; split; auto;
+        [rewrite assoc_set_id in Hlq; auto|rewrite assoc_set_id; auto]. }
+    split; [|split; [reflexivity|split; [|split; [|split]]]].
+    + apply J_weaken with (S := S ++ []); [|rewrite app_nil_r; apply incl_refl].
+      eapply J_qshrink with (p := p) (ex := []) (R := []); eauto; try reflexivity. apply split_ok_nil; auto. apply incl_refl.
+    + intros u Hu. right. apply Lq; auto.
+    + intros r Hr _ _. exact Hr.
+    + intros Hnq. exfalso. unfold tl_add in E. destruct (tl_get l (tnonce x)) as [o|] eqn:G; [|discriminate].
+      apply tl_get_some in G. destruct G as [Go Gn]. apply (Hnq o); auto. exists l; auto.
+    + intros b Hb. discriminate.
+Qed.
+
+From Coq Require Import Permutation.
+Lemma ins_by_perm : forall A (key : A -> Z) x l, Permutation (ins_by key x l) (x :: l).
+Proof.
+  induction l as [|y l IH]; cbn [ins_by]; auto. destruct (key y <=? key x); auto.
+  eapply perm_trans; [apply perm_skip; exact IH|apply perm_swap].
+Qed.
+Lemma sort_by_perm : forall A (key : A -> Z) l, Permutation (sort_by key l) l.
+Proof.
+  intros A key l. unfold sort_by.
+  assert (G : forall l acc, Permutation (fold_left (fun acc x => ins_by key x acc) l acc) (l ++ acc)).
+  { induction l0 as [|y l0 IH]; intros acc; cbn [fold_left app]; auto.
+    eapply perm_trans; [apply IH|]. eapply perm_trans; [apply Permutation_app_head; apply ins_by_perm|]. apply Permutation_sym, Permutation_middle. }
+  specialize (G l []). rewrite app_nil_r in G. exact G.
+Qed.
+Lemma ns_nodup : forall l, nonce_sorted l -> NoDup (map tnonce l).
+Proof.
+  unfold nonce_sorted. induction l as [|x l IH]; intros Hs; cbn [map]; constructor; inversion Hs as [|? ? Hs' Hall]; subst; auto.
+  intros Hin. apply in_map_iff in Hin. destruct Hin as (y & Hy & Hin). rewrite Forall_forall in Hall. specialize (Hall _ Hin). lia.
+Qed.
+Lemma nodup_order : forall o l, NoDup (map tnonce l) -> NoDup (map tnonce (order_txs o l)).
+Proof. intros o l H. eapply Permutation_NoDup; [|exact H]. apply Permutation_map, Permutation_sym, sort_by_perm. Qed.
+
+(* re-queue transactions in flight (taken out of pending[a]); afterwards they are listed again *)
+Lemma requeue_J : forall ex p a S0, J p (S0 ++ ex) -> Forall (fun t => tfrom t = a) ex -> NoDup (map tnonce ex) ->
+  (forall x, In x ex -> assoc (thash x) (all p) = Some x /\ ~ listed p x) ->
+  (forall x u, In x ex -> in_pending p a u -> tnonce u <> tnonce x) ->
+  (forall x u, In x ex -> in_queue p a u -> tnonce u <> tnonce x) ->
+  J (fold_left (fun q x => snd (enqueue_tx q x)) ex p) S0 /\ pending (fold_left (fun q x => snd (enqueue_tx q x)) ex p) = pending p /\
+  (forall u, listed (fold_left (fun q x => snd (enqueue_tx q x)) ex p) u -> In u ex \/ listed p u).
+Proof.
+  induction ex as [|x ex IH]; intros p a S0 HJ Hf Hnd Hin Hnp Hnq; cbn [fold_left].
+  - rewrite app_nil_r in HJ. auto.
+  - inversion Hf as [|? ? Hfx Hf']; subst. cbn [map] in Hnd. inversion Hnd as [|? ? Hnx Hnd']; subst.
+    destruct (Hin x (or_introl eq_refl)) as [Ax Lx]. pose proof HJ as (U & W & _).
+    destruct (enqueue_J p x (S0 ++ x :: ex) HJ) as (Jq & Pq & F1 & F2 & F3 & _).
+    { intros u Hu. apply (Hnp x u); auto. left; auto. }
+    { apply fresh_from_inflight; auto. }
+    set (q := snd (enqueue_tx p x)) in *.
+    assert (Lqx : listed q x) by (apply F3; intros u Hu; apply (Hnq x u); auto; left; auto).
+    assert (Dxy : forall y, In y ex -> tnonce y <> tnonce x).
+    { intros y Hy E. apply Hnx. rewrite <- E. apply in_map. auto. }
+    destruct (IH q (tfrom x) S0) as (J2 & P2 & M2); auto.
+    + eapply J_prune; [exact Jq|]. intros t Ht. apply in_app_or in Ht. destruct Ht as [Ht|[->|Ht]]; auto; left; apply in_or_app; auto.
+    + intros y Hy. destruct (Hin y (or_intror Hy)) as [Ay Ly]. split.
+      * apply F2; auto. intros E. rewrite E in Ay. assert (y = x) by congruence. subst. apply (Dxy x); auto.
+      * intros L. destruct (F1 _ L) as [->|L']; auto. apply (Dxy x); auto.
+    + intros y u Hy (lp & Hlp & Hu). rewrite Pq in Hlp. apply (Hnp y u); [right; auto|exists lp; auto].
+    + intros y u Hy Hu. assert (Lu : listed q u) by (exists (tfrom x); right; auto).
+      destruct (F1 _ Lu) as [->|Lp]; [intros E; apply (Dxy y); auto|].
+      destruct Jq as (Uq & _ & _). destruct Hu as (lq & Hlq & Hu).
+      destruct (listed_keyed _ _ U Lp) as [(l1 & Hl1 & Hi1)|(l1 & Hl1 & Hi1)].
+      * destruct Uq as (_ & HQq & HDq). destruct (HQq _ _ Hlq) as [_ Hfq]. rewrite Forall_forall in Hfq. rewrite (Hfq _ Hu) in Hl1.
+        exfalso. apply (HDq (tfrom x) u u); [exists l1; rewrite Pq; auto|exists lq; auto|reflexivity].
+      * destruct Uq as (_ & HQq & _). destruct (HQq _ _ Hlq) as [_ Hfq]. rewrite Forall_forall in Hfq. rewrite (Hfq _ Hu) in Hl1.
+        apply (Hnq y u); [right; auto|exists l1; auto].
+    + split; [auto|split; [rewrite P2; auto|]]. intros u Hu. destruct (M2 _ Hu) as [H1|H1]; [left; right; auto|].
+      destruct (F1 _ H1) as [->|H2]; [left; left; auto|right; auto].
+Qed.
+
+Lemma promote_J : forall p a t S S', J p S -> tfrom t = a -> assoc (thash t) (all p) = Some t -> ~ listed p t ->
+  (forall u, in_queue p a u -> tnonce u <> tnonce t) -> (forall s, In s S -> In s S' \/ s = t) ->
+  J (promote_tx p a t) S' /\ queue (promote_tx p a t) = queue p /\
+  (forall u, listed (promote_tx p a t) u -> u = t \/ listed p u) /\
+  (forall r, assoc (thash r) (all p) = Some r -> ~ listed p r -> thash r <> thash t -> assoc (thash r) (all (promote_tx p a t)) = Some r).
+Proof.
+  intros p a t S S' HJ Hfrom At Lt Hnq HS. subst a. pose proof HJ as (U & W & _).
+  pose proof (fresh_from_inflight p t W At Lt) as Hfr. unfold promote_tx.
+  change (match assoc (tfrom t) (pending p) with Some l => l | None => new_txlist true end) with (list_of (pending p) (tfrom t) true).
+  destruct (tl_add (list_of (pending p) (tfrom t) true) t (c_bump (conf p))) as [[ins old] l'] eqn:E. destruct ins.
+  - pose proof (tl_add_ok _ _ _ _ _ E) as [Hit Hold].
+    match goal with |- J ?Q _ /\ _ => set (q := Q) end.
+    assert (Hpq : pending q = assoc_set (tfrom t) l' (pending p) /\ queue q = queue p).
+    { subst q. destruct old; cbn; match goal with |- context [match ?X with _ => _ end] => destruct X end; split; reflexivity. }
+    destruct Hpq as [Hp Hq].
+    destruct (J_pins p q t true l' S HJ Hnq Hfr Hit Hq Hp) as (Lx & Jq & F1 & F2).
+    { intros h. subst old.
+      assert (A2 : assoc (thash t) (match tl_get (list_of (pending p) (tfrom t) true) (tnonce t) with Some o => assoc_del (thash o) (all p) | None => all p end) = Some t).
+      { destruct (tl_get (list_of (pending p) (tfrom t) true) (tnonce t)) as [o|] eqn:G; auto. rewrite assoc_del_other; auto.
+        apply tl_get_some in G. destruct G as [Go _]. intros E2. apply (Hfr o); auto.
+        exists (tfrom t). left. unfold list_of in Go. destruct (assoc (tfrom t) (pending p)) as [l0|] eqn:P0; [exists l0; auto|destruct Go]. }
+      subst q. destruct (tl_get (list_of (pending p) (tfrom t) true) (tnonce t)) as [o|]; cbn [all all_drop all_put set_all set_priced set_pending pn_set set_pnonce set_beats] in *.
+      - match goal with |- context [match ?X with _ => _ end] => destruct X eqn:EX end; cbn [all all_drop all_put set_all set_priced set_pending pn_set set_pnonce set_beats]; auto.
+        cbn [all all_drop all_put set_all set_priced set_pending] in EX. rewrite assoc_set_id; [reflexivity|rewrite EX; exact A2].
+      - match goal with |- context [match ?X with _ => _ end] => destruct X eqn:EX end; cbn [all all_drop all_put set_all set_priced set_pending pn_set set_pnonce set_beats]; auto.
+        cbn [all all_drop all_put set_all set_priced set_pending] in EX. rewrite assoc_set_id; [reflexivity|rewrite EX; exact A2]. }
+    split; [|split; [exact Hq|split; [exact F1|exact F2]]].
+    eapply J_prune; [exact Jq|]. intros s Hs. destruct (HS _ Hs) as [H1| ->]; auto.
+  - pose proof (tl_add_reject _ _ _ _ _ E) as ->. unfold list_of in *.
+    destruct (assoc (tfrom t) (pending p)) as [l|] eqn:P; [|exfalso; eapply tl_add_empty_accepts; eauto].
+    set (p1 := set_pending p (assoc_set (tfrom t) l (pending p))).
+    assert (Lq : forall u, listed p1 u <-> listed p u).
+    { intros u. unfold listed, in_pending, in_queue, p1. cbn [pending queue set_pending].
+      split; intros [b H]; exists b; destruct H as [(lq & Hlq & Hin)|H]; auto; left; exists lq; split; auto;
+        [rewrite assoc_set_id in Hlq; auto|rewrite assoc_set_id; auto]. }
+    assert (J1 : J p1 S).
+    { apply J_weaken with (S := S ++ []); [|rewrite app_nil_r; apply incl_refl].
+      eapply J_pshrink with (p := p) (ex := []) (R := []); eauto; try reflexivity. apply split_ok_nil; auto. apply incl_refl. }
+    change (all_drop p1 (thash t)) with (drop_all p1 [t]).
+    split; [|split; [reflexivity|split]].
+    + eapply J_dropall; [exact J1| |].
+      * intros x [<-|[]]. split; [exact At|]. intros L. apply Lt. apply Lq. auto.
+      * intros s Hs. destruct (HS _ Hs) as [H1| ->]; auto. right. left. auto.
+    + intros u Hu. right. apply Lq. destruct (drop_all_pq [t] p1) as [A B]. unfold listed, in_pending, in_queue in *. rewrite A, B in Hu. exact Hu.
+    + intros r Hr _ Hne. rewrite drop_all_all. cbn [existsb]. destruct (thash t =? thash r) eqn:E2; [lia|]. exact Hr.
+Qed.
+
+(* ---------------------------------------------------------------- what leaves a list: cover facts *)
+Definition parts (l l' D : list tx) : Prop :=
+  (forall t, In t l -> In t l' \/ In t D) /\ incl D l /\ incl l' l /\ (nonce_sorted l -> forall x, In x D -> ~ In x l').
+Lemma parts_filter : forall f l, parts l (filter (fun t => negb (f t)) l) (filter f l).
+Proof.
+  intros f l. repeat split.
+  - intros t Ht. destruct (f t) eqn:E; [right|left]; apply filter_In; rewrite ?E; auto.
+  - intros t Ht. apply filter_In in Ht. tauto.
+  - intros t Ht. apply filter_In in Ht. tauto.
+  - intros _ x Hx Hx'. apply filter_In in Hx. apply filter_In in Hx'. destruct Hx as [_ A], Hx' as [_ B]. rewrite A in B. discriminate.
+Qed.
+Lemma parts_app : forall a b, parts (a ++ b) a b /\ parts (a ++ b) b a.
+Proof.
+  intros a b. split; repeat split; try (intros t Ht; apply in_or_app; auto).
+  - intros t Ht. apply in_app_or in Ht. tauto.
+  - intros Hs x Hx Hx'. destruct (ns_app_inv _ _ Hs) as (_ & _ & D). specialize (D _ _ Hx' Hx). lia.
+  - intros t Ht. apply in_app_or in Ht. tauto.
+  - intros Hs x Hx Hx'. destruct (ns_app_inv _ _ Hs) as (_ & _ & D). specialize (D _ _ Hx Hx'). lia.
+Qed.
+Lemma parts_refl : forall l, parts l l [].
+Proof. intros l. repeat split; auto; try apply incl_refl; try (intros t []); try (intros _ x []). Qed.
+Lemma parts_trans : forall l l1 l2 D1 D2, (nonce_sorted l -> nonce_sorted l1) -> parts l l1 D1 -> parts l1 l2 D2 -> parts l l2 (D1 ++ D2).
+Proof.
+  intros l l1 l2 D1 D2 Hs1 (C1 & I1 & K1 & N1) (C2 & I2 & K2 & N2). repeat split.
+  - intros t Ht. destruct (C1 _ Ht) as [H|H]; [destruct (C2 _ H); auto|]; right; apply in_or_app; auto.
+  - intros t Ht. apply in_app_or in Ht. destruct Ht; auto.
+  - intros t Ht. auto.
+  - intros Hs x Hx Hx'. apply in_app_or in Hx. destruct Hx as [Hx|Hx]; [apply (N1 Hs x Hx); auto|apply (N2 (Hs1 Hs) x Hx); auto].
+Qed.
+Lemma parts_mem : forall l l' D D', parts l l' D -> (forall t, In t D' <-> In t D) -> parts l l' D'.
+Proof.
+  intros l l' D D' (C & I & K & N) E. repeat split; auto.
+  - intros t Ht. destruct (C _ Ht); auto. right. apply E. auto.
+  - intros t Ht. apply I. apply E. auto.
+  - intros Hs x Hx. apply N; auto. apply E. auto.
+Qed.
+
+Lemma tl_forward_parts : forall l th rm l', tl_forward l th = (rm, l') -> parts (items l) (items l') rm.
+Proof. intros l th rm l' H. unfold tl_forward in H. inversion H; subst. cbn [items]. apply (parts_filter (fun t => tnonce t <? th)). Qed.
+Lemma tl_filter_parts : forall o l c g drops invs l', tl_filter o l c g = (drops, invs, l') ->
+  parts (items l) (items l') (drops ++ invs) /\ (strict l = false -> invs = []) /\ strict l' = strict l /\
+  (nonce_sorted (items l) -> NoDup (map tnonce invs)).
+Proof.
+  intros o l c g drops invs l' H. unfold tl_filter in H.
+  destruct ((costcap l <=? c) && (gascap l <=? g)).
+  { inversion H; subst. split; [apply parts_refl|split; [auto|split; [auto|intros; constructor]]]. }
+  set (bad := fun t => (c <? tcost t) || (g <? tgas t)) in *.
+  pose proof (parts_filter bad (items l)) as P0.
+  destruct (strict l) eqn:St; [destruct (filter bad (items l)) as [|b0 br] eqn:Erem|].
+  - inversion H; subst. cbn [items strict app]. split; [exact P0|split; [auto|split; [auto|intros; constructor]]].
+  - inversion H; subst; clear H. cbn [items strict]. split; [|split; [discriminate|split; [auto|]]].
+    + eapply parts_mem with (D := (b0 :: br) ++ filter (fun t0 => _ <? tnonce t0) (filter (fun t => negb (bad t)) (items l))).
+      * eapply parts_trans; [apply ns_filter|exact P0|apply (parts_filter (fun t0 => _ <? tnonce t0))].
+      * intros t. rewrite !in_app_iff, !order_txs_in. tauto.
+    + intros Hs. apply nodup_order. apply ns_nodup. apply ns_filter. apply ns_filter. auto.
+  - inversion H; subst. cbn [items strict]. split; [|split; [auto|split; [auto|intros; constructor]]]. rewrite app_nil_r.
+    eapply parts_mem; [exact P0|]. intros t. apply order_txs_in.
+Qed.
+Lemma tl_cap_parts : forall l k drops l', tl_cap l k = Some (drops, l') ->
+  parts (items l) (items l') drops /\ strict l' = strict l /\ (nonce_sorted (items l) -> NoDup (map tnonce drops)).
+Proof.
+  intros l k drops l' H. unfold tl_cap in H.
+  destruct (Z.of_nat (length (items l)) <=? k). { inversion H; subst. split; [apply parts_refl|split; [auto|intros; constructor]]. }
+  destruct (k <? 0); [discriminate|]. inversion H; subst; clear H. cbn [items strict]. split; [|split; [auto|]].
+  - pose proof (proj1 (parts_app (firstn (Z.to_nat k) (items l)) (skipn (Z.to_nat k) (items l)))) as P. rewrite firstn_skipn in P.
+    eapply parts_mem; [exact P|]. intros t. rewrite <- in_rev. tauto.
+  - intros Hs. rewrite <- (firstn_skipn (Z.to_nat k) (items l)) in Hs. destruct (ns_app_inv _ _ Hs) as (_ & Sb & _).
+    eapply Permutation_NoDup; [|apply ns_nodup; exact Sb]. apply Permutation_map, Permutation_rev.
+Qed.
+Lemma tl_ready_parts : forall l s ready l', tl_ready l s = (ready, l') ->
+  parts (items l) (items l') ready /\ strict l' = strict l /\ (nonce_sorted (items l) -> NoDup (map tnonce ready)).
+Proof.
+  intros l s ready l' H. unfold tl_ready in H.
+  destruct (items l) as [|x r] eqn:E. { inversion H; subst. rewrite E. split; [apply parts_refl|split; [auto|intros; constructor]]. }
+  destruct (s <? tnonce x). { inversion H; subst. rewrite E. split; [apply parts_refl|split; [auto|intros; constructor]]. }
+  destruct (take_run (tnonce x) (x :: r)) as [a b] eqn:Er. inversion H; subst; clear H. cbn [items strict].
+  rewrite (take_run_app _ _ _ _ Er). split; [apply parts_app|split; [auto|]].
+  intros Hs. destruct (ns_app_inv _ _ Hs) as (Sa & _ & _). apply ns_nodup; auto.
+Qed.
+Lemma tl_remove_parts : forall o l t invs l', tl_remove o l t = (true, invs, l') ->
+  parts (items l) (items l') (filter (fun x => tnonce x =? tnonce t) (items l) ++ invs) /\ strict l' = strict l /\
+  (nonce_sorted (items l) -> NoDup (map tnonce invs)).
+Proof.
+  intros o l t invs l' H. unfold tl_remove in H. destruct (tl_get l (tnonce t)); [|discriminate].
+  pose proof (parts_filter (fun x => tnonce x =? tnonce t) (items l)) as P0.
+  destruct (strict l) eqn:St; inversion H; subst; clear H; cbn [items strict]; (split; [|split; [auto|]]).
+  - eapply parts_mem with (D := filter (fun x => tnonce x =? tnonce t) (items l) ++ filter (fun x => tnonce t <? tnonce x) (filter (fun x => negb (tnonce x =? tnonce t)) (items l))).
+    + eapply parts_trans; [apply ns_filter|exact P0|apply (parts_filter (fun x => tnonce t <? tnonce x))].
+    + intros u. rewrite !in_app_iff, order_txs_in. tauto.
+  - intros Hs. apply nodup_order. apply ns_nodup. apply ns_filter. apply ns_filter. auto.
+  - rewrite app_nil_r. exact P0.
+  - intros; constructor.
+Qed.
+
+(* ---------------------------------------------------------------- queue lists are non-strict *)
+Definition QS (p : pool) : Prop := forall a l, assoc a (queue p) = Some l -> strict l = false.
+Lemma QS_set : forall p q a l', QS p -> strict l' = false -> queue q = assoc_set a l' (queue p) -> QS q.
+Proof.
+  intros p q a l' H Hs Hq b l Hl. rewrite Hq in Hl. destruct (Z.eq_dec b a) as [->|Hne];
+    [rewrite assoc_set_same in Hl; inversion Hl; subst; auto|rewrite assoc_set_other in Hl by auto; eapply H; eauto].
+Qed.
+Lemma QS_del : forall p q a, QS p -> queue q = assoc_del a (queue p) -> QS q.
+Proof.
+  intros p q a H Hq b l Hl. rewrite Hq in Hl. destruct (Z.eq_dec b a) as [->|Hne];
+    [rewrite assoc_del_same in Hl; discriminate|rewrite assoc_del_other in Hl by auto; eapply H; eauto].
+Qed.
+Lemma QS_same : forall p q, QS p -> queue q = queue p -> QS q.
+Proof. intros p q H Hq b l Hl. rewrite Hq in Hl. eapply H; eauto. Qed.
+Lemma tl_add_strict : forall l t bump b old l', tl_add l t bump = (b, old, l') -> strict l' = strict l.
+Proof. intros l t bump b old l' H. unfold tl_add in H. destruct (match tl_get l (tnonce t) with Some o => _ | None => false end); inversion H; subst; auto. Qed.
+Lemma enqueue_QS : forall p t, QS p -> QS (snd (enqueue_tx p t)).
+Proof.
+  intros p t H. unfold enqueue_tx.
+  destruct (tl_add (match assoc (tfrom t) (queue p) with Some l => l | None => new_txlist false end) t (c_bump (conf p))) as [[ins old] l'] eqn:E.
+  pose proof (tl_add_strict _ _ _ _ _ _ E) as Hs.
+  assert (Hs0 : strict (match assoc (tfrom t) (queue p) with Some l => l | None => new_txlist false end) = false).
+  { destruct (assoc (tfrom t) (queue p)) eqn:Q; [eapply H; eauto|reflexivity]. }
+  destruct ins; cbn [snd].
+  - apply (QS_set p _ (tfrom t) l' H); [congruence|destruct old; reflexivity].
+  - apply (QS_set p _ (tfrom t) _ H Hs0). reflexivity.
+Qed.
+Lemma enqueue_fold_QS : forall ex p, QS p -> QS (fold_left (fun q x => snd (enqueue_tx q x)) ex p).
+Proof. induction ex; intros; cbn [fold_left]; auto. apply IHex. apply enqueue_QS; auto. Qed.
+
+Lemma J_ext : forall p q S, pending q = pending p -> queue q = queue p -> (forall h, assoc h (all q) = assoc h (all p)) -> J p S -> J q S.
+Proof.
+  intros p q S Hp Hq Ha (U & [W1 W2] & O).
+  assert (L : forall t, listed q t <-> listed p t) by (intros t; unfold listed, in_pending, in_queue; rewrite Hp, Hq; tauto).
+  split; [eapply un_same; eauto|split; [split|]].
+  - intros h t Ht. rewrite Ha in Ht. eauto.
+  - intros t Ht. rewrite Ha. apply W2. apply L. auto.
+  - intros t Ht. rewrite Ha in Ht. destruct (O t Ht); auto. left. apply L. auto.
+Qed.
+
+(* shrink queue[a] / pending[a]; delete D from pool.all; E stays in flight *)
+Lemma qshrink_drop_J : forall p a l l' ex D E, J p [] -> assoc a (queue p) = Some l ->
+  split_ok (items l) (items l') ex -> parts (items l) (items l') (D ++ E) -> (forall x, In x D -> In x E -> False) ->
+  J (drop_all (set_queue p (assoc_set a l' (queue p))) D) E /\
+  (forall x, In x E -> assoc (thash x) (all (drop_all (set_queue p (assoc_set a l' (queue p))) D)) = Some x /\
+                       ~ listed (drop_all (set_queue p (assoc_set a l' (queue p))) D) x).
+Proof.
+  intros p a l l' ex D E HJ Ha Hsp (C1 & C2 & C3 & C4) Hdis. set (pa := set_queue p (assoc_set a l' (queue p))).
+  pose proof HJ as (U & [W1 W2] & _). destruct (U) as (_ & HQ & _). destruct (HQ _ _ Ha) as [Hs _].
+  assert (Ja : J pa ([] ++ (D ++ E))) by (eapply J_qshrink with (p := p); eauto; reflexivity).
+  destruct Ja as (Ua & Wa & Oa). assert (Ja : J pa (D ++ E)) by (split; [|split]; auto).
+  assert (Hx : forall x, In x (D ++ E) -> assoc (thash x) (all pa) = Some x /\ ~ listed pa x).
+  { intros x Hx. split.
+    - apply W2. exists a. right. exists l. auto.
+    - eapply unlisted_after_qshrink with (p := p) (l := l) (l' := l'); eauto; try reflexivity. }
+  destruct (drop_all_pq D pa) as [Pp Pq].
+  split.
+  - eapply J_dropall; [exact Ja| |].
+    + intros x Hd. apply Hx. apply in_or_app. auto.
+    + intros t Ht. apply in_app_or in Ht. tauto.
+  - intros x He. destruct (Hx x (in_or_app _ _ _ (or_intror He))) as [A B]. split.
+    + rewrite drop_all_all. destruct (existsb (fun d => thash d =? thash x) D) eqn:Ex; auto. exfalso.
+      apply existsb_exists in Ex. destruct Ex as (d & Hd & Hh). destruct (Hx d (in_or_app _ _ _ (or_introl Hd))) as [Ad _].
+      assert (thash d = thash x) by lia. rewrite H in Ad. assert (d = x) by congruence. subst. eauto.
+    + unfold listed, in_pending, in_queue in *. rewrite Pp, Pq. exact B.
+Qed.
+Lemma pshrink_drop_J : forall p a l l' ex D E, J p [] -> assoc a (pending p) = Some l ->
+  split_ok (items l) (items l') ex -> parts (items l) (items l') (D ++ E) -> (forall x, In x D -> In x E -> False) ->
+  J (drop_all (set_pending p (assoc_set a l' (pending p))) D) E /\
+  (forall x, In x E -> assoc (thash x) (all (drop_all (set_pending p (assoc_set a l' (pending p))) D)) = Some x /\
+                       ~ listed (drop_all (set_pending p (assoc_set a l' (pending p))) D) x).
+Proof.
+  intros p a l l' ex D E HJ Ha Hsp (C1 & C2 & C3 & C4) Hdis. set (pa := set_pending p (assoc_set a l' (pending p))).
+  pose proof HJ as (U & [W1 W2] & _). destruct (U) as (HP & _ & _). destruct (HP _ _ Ha) as [Hs _].
+  assert (Ja : J pa ([] ++ (D ++ E))) by (eapply J_pshrink with (p := p); eauto; reflexivity).
+  destruct Ja as (Ua & Wa & Oa). assert (Ja : J pa (D ++ E)) by (split; [|split]; auto).
+  assert (Hx : forall x, In x (D ++ E) -> assoc (thash x) (all pa) = Some x /\ ~ listed pa x).
+  { intros x Hx. split.
+    - apply W2. exists a. left. exists l. auto.
+    - eapply unlisted_after_pshrink with (p := p) (l := l) (l' := l'); eauto; try reflexivity. }
+  destruct (drop_all_pq D pa) as [Pp Pq].
+  split.
+  - eapply J_dropall; [exact Ja| |].
+    + intros x Hd. apply Hx. apply in_or_app. auto.
+    + intros t Ht. apply in_app_or in Ht. tauto.
+  - intros x He. destruct (Hx x (in_or_app _ _ _ (or_intror He))) as [A B]. split.
+    + rewrite drop_all_all. destruct (existsb (fun d => thash d =? thash x) D) eqn:Ex; auto. exfalso.
+      apply existsb_exists in Ex. destruct Ex as (d & Hd & Hh). destruct (Hx d (in_or_app _ _ _ (or_introl Hd))) as [Ad _].
+      assert (thash d = thash x) by lia. rewrite H in Ad. assert (d = x) by congruence. subst. eauto.
+    + unfold listed, in_pending, in_queue in *. rewrite Pp, Pq. exact B.
+Qed.
+
+Lemma promote_fold_J : forall a ready p S0, J p (S0 ++ ready) -> Forall (fun t => tfrom t = a) ready -> NoDup (map tnonce ready) ->
+  (forall x, In x ready -> assoc (thash x) (all p) = Some x /\ ~ listed p x) ->
+  (forall x u, In x ready -> in_queue p a u -> tnonce u <> tnonce x) ->
+  J (fold_left (fun q t => promote_tx q a t) ready p) S0 /\ queue (fold_left (fun q t => promote_tx q a t) ready p) = queue p.
+Proof.
+  induction ready as [|t ready IH]; intros p S0 HJ Hf Hnd Hin Hnq; cbn [fold_left].
+  - rewrite app_nil_r in HJ. auto.
+  - inversion Hf as [|? ? Hft Hf']; subst. cbn [map] in Hnd. inversion Hnd as [|? ? Hnx Hnd']; subst.
+    destruct (Hin t (or_introl eq_refl)) as [At Lt].
+    destruct (promote_J p (tfrom t) t (S0 ++ t :: ready) (S0 ++ ready) HJ eq_refl At Lt) as (Jq & Qq & F1 & F2).
+    { intros u Hu. apply (Hnq t u); auto. left; auto. }
+    { intros s Hs. apply in_app_or in Hs. destruct Hs as [Hs|[->|Hs]]; auto; left; apply in_or_app; auto. }
+    assert (Dxy : forall y, In y ready -> tnonce y <> tnonce t).
+    { intros y Hy E. apply Hnx. rewrite <- E. apply in_map. auto. }
+    destruct (IH _ S0 Jq) as [J2 Q2]; auto.
+    + intros y Hy. destruct (Hin y (or_intror Hy)) as [Ay Ly]. split.
+      * apply F2; auto. intros E. rewrite E in Ay. assert (y = t) by congruence. subst. apply (Dxy t); auto.
+      * intros L. destruct (F1 _ L) as [->|L']; auto. apply (Dxy t); auto.
+    + intros y u Hy Hu. unfold in_queue in Hu. rewrite Qq in Hu. apply (Hnq y u); auto. right; auto.
+    + split; auto. rewrite Q2. auto.
+Qed.
+
+(* K: the invariant carried through every operation for all = pending ∪ queue *)
+Definition K (p : pool) : Prop := J p [] /\ QS p.
+Lemma tl_empty_items : forall l, tl_empty l = true -> items l = [].
+Proof. intros l H. unfold tl_empty in H. destruct (items l); auto. discriminate. Qed.
+Lemma promote_fold_QS : forall a ready p, QS p -> QS (fold_left (fun q t => promote_tx q a t) ready p).
+Proof.
+  induction ready as [|t ready IH]; intros p H; cbn [fold_left]; auto. apply IH. eapply QS_same; [exact H|].
+  unfold promote_tx. destruct (tl_add _ t (c_bump (conf p))) as [[ins old] l']. destruct ins; [|reflexivity].
+  destruct old; cbn; match goal with |- context [match ?X with _ => _ end] => destruct X end; reflexivity.
+Qed.
+
+Lemma pe_account_K : forall o p a p', K p -> pe_account o p a = Ok p' -> K p'.
+Proof.
+  intros o p a p' [HJ HS] H. unfold pe_account in H. destruct (assoc a (queue p)) as [l|] eqn:Q; [|inversion H; subst; split; auto].
+  pose proof (HS _ _ Q) as St0.
+  (* Forward *)
+  destruct (tl_forward l (cur_nonce p a)) as [old l1] eqn:F.
+  destruct (tl_forward_ok _ _ _ _ F) as [Sp1 St1]. pose proof (tl_forward_parts _ _ _ _ F) as Pa1.
+  set (p1 := drop_all (set_queue p (assoc_set a l1 (queue p))) old) in *.
+  destruct (drop_all_pq old (set_queue p (assoc_set a l1 (queue p)))) as [Pp1 Pq1]. fold p1 in Pp1, Pq1. cbn [pending queue set_queue] in Pp1, Pq1.
+  assert (J1 : J p1 []). { eapply (qshrink_drop_J p a l l1 [] old []); eauto. rewrite app_nil_r. exact Pa1. }
+  assert (S1 : QS p1) by (apply (QS_set p p1 a l1 HS); [congruence|exact Pq1]).
+  assert (Q1 : assoc a (queue p1) = Some l1) by (rewrite Pq1; apply assoc_set_same).
+  clearbody p1. clear Pp1 Pq1 HJ HS Q.
+  (* Filter *)
+  destruct (tl_filter o l1 (cur_balance p1 a) (maxgas p1)) as [[drops invs] l2] eqn:Fi.
+  pose proof (tl_filter_ok _ _ _ _ _ _ _ Fi) as Sp2. destruct (tl_filter_parts _ _ _ _ _ _ _ Fi) as (Pa2 & Inv0 & St2 & _).
+  assert (invs = []) by (apply Inv0; congruence). subst invs.
+  set (p2 := drop_all (set_queue p1 (assoc_set a l2 (queue p1))) drops) in *.
+  destruct (drop_all_pq drops (set_queue p1 (assoc_set a l2 (queue p1)))) as [Pp2 Pq2]. fold p2 in Pp2, Pq2. cbn [pending queue set_queue] in Pp2, Pq2.
+  assert (J2 : J p2 []). { eapply (qshrink_drop_J p1 a l1 l2 [] drops []); eauto. }
+  assert (S2 : QS p2) by (apply (QS_set p1 p2 a l2 S1); [congruence|exact Pq2]).
+  assert (Q2 : assoc a (queue p2) = Some l2) by (rewrite Pq2; apply assoc_set_same).
+  clearbody p2. clear Pp2 Pq2 J1 S1 Q1.
+  (* Ready + promote *)
+  destruct (tl_ready l2 (pn_get p2 a)) as [ready l3] eqn:R.
+  pose proof (tl_ready_ok _ _ _ _ R) as Sp3. destruct (tl_ready_parts _ _ _ _ R) as (Pa3 & St3 & Nd3).
+  set (pb := set_queue p2 (assoc_set a l3 (queue p2))) in *.
+  pose proof J2 as (U2 & _ & _). destruct U2 as (_ & HQ2 & _). destruct (HQ2 _ _ Q2) as [Hs2 Hf2]. destruct (Sp3 Hs2) as (_ & _ & Ir & Dr).
+  destruct (qshrink_drop_J p2 a l2 l3 ready [] ready J2 Q2 Sp3 Pa3) as [Jb Fb]. { intros x []. }
+  change (drop_all (set_queue p2 (assoc_set a l3 (queue p2))) []) with pb in Jb, Fb.
+  assert (Qb : assoc a (queue pb) = Some l3) by (unfold pb; cbn [queue set_queue]; apply assoc_set_same).
+  destruct (promote_fold_J a ready pb [] Jb) as [J3 Q3]; auto.
+  { rewrite Forall_forall in *. intros x Hx. apply Hf2. apply Ir. auto. }
+  { intros x u Hx (lq & Hlq & Hu). rewrite Qb in Hlq. inversion Hlq; subst. intros E. apply (Dr x u); auto. }
+  assert (Sb : QS pb) by (apply (QS_set p2 pb a l3 S2); [congruence|reflexivity]).
+  pose proof (promote_fold_QS a ready pb Sb) as S3.
+  set (p3 := fold_left (fun q t => promote_tx q a t) ready pb) in *. clearbody p3. clearbody pb.
+  assert (Q3' : assoc a (queue p3) = Some l3) by (rewrite Q3; auto).
+  (* Cap *)
+  apply bind_ok in H. destruct H as ([p4 l4] & H1 & H2).
+  assert (K4 : J p4 [] /\ QS p4 /\ assoc a (queue p4) = Some l4).
+  { destruct (memZ a (locals p3)); [inversion H1; subst; auto|].
+    destruct (tl_cap l3 (c_aqueue (conf p3))) as [[caps l4']|] eqn:C; [|discriminate]. inversion H1; subst; clear H1.
+    destruct (tl_cap_parts _ _ _ _ C) as (Pa4 & St4 & _). pose proof (tl_cap_ok _ _ _ _ C) as Sp4.
+    destruct (drop_all_pq caps (set_queue p3 (assoc_set a l4 (queue p3)))) as [Pp4 Pq4]. cbn [pending queue set_queue] in Pp4, Pq4.
+    split; [|split].
+    - eapply (qshrink_drop_J p3 a l3 l4 caps caps []); eauto. rewrite app_nil_r. exact Pa4.
+    - apply (QS_set p3 _ a l4 S3); [|exact Pq4]. rewrite St4. eapply S3; eauto.
+    - rewrite Pq4. apply assoc_set_same. }
+  destruct K4 as (J4 & S4 & Q4). inversion H2; subst. destruct (tl_empty l4) eqn:Em; [|split; auto]. split.
+  - eapply J_qdel with (p := p4); eauto; try reflexivity. intros l0 Hl0. rewrite Q4 in Hl0. inversion Hl0; subst. apply tl_empty_items; auto.
+  - eapply QS_del; eauto. reflexivity.
+Qed.
+
+Lemma tl_filter_disj : forall o l c g drops invs l', tl_filter o l c g = (drops, invs, l') -> forall x, In x drops -> In x invs -> False.
+Proof.
+  intros o l c g drops invs l' H x Hd Hi. unfold tl_filter in H.
+  destruct ((costcap l <=? c) && (gascap l <=? g)); [inversion H; subst; destruct Hd|].
+  destruct (strict l); [destruct (filter _ (items l)) eqn:Erem|]; inversion H; subst; clear H; try (destruct Hi; fail).
+  apply order_txs_in in Hd. apply order_txs_in in Hi. rewrite <- Erem in Hd. apply filter_In in Hd. apply filter_In in Hi.
+  destruct Hi as [Hi _]. apply filter_In in Hi. destruct Hd as [_ A], Hi as [_ B]. rewrite A in B. discriminate.
+Qed.
+Lemma assoc_del_set : forall A a (v : A) m, assoc_del a (assoc_set a v m) = assoc_del a m.
+Proof.
+  induction m as [|[k w] m IH]; cbn [assoc_set assoc_del]; [rewrite Z.eqb_refl; auto|].
+  destruct (a =? k) eqn:E; cbn [assoc_del]; rewrite ?Z.eqb_refl, ?E; auto. rewrite IH. auto.
+Qed.
+Lemma filter_nonce_singleton : forall l t, nonce_sorted l -> In t l -> filter (fun x => tnonce x =? tnonce t) l = [t].
+Proof.
+  unfold nonce_sorted. induction l as [|z l IH]; intros t Hs Hin; [destruct Hin|]. inversion Hs as [|? ? Hs' Hall]; subst. rewrite Forall_forall in Hall.
+  cbn [filter]. destruct Hin as [->|Hin].
+  - rewrite Z.eqb_refl. f_equal. apply (proj2 (forallb_filter_nil _ _)) || idtac.
+    assert (G : forall l0, (forall y, In y l0 -> tnonce t < tnonce y) -> filter (fun x => tnonce x =? tnonce t) l0 = []).
+    { induction l0 as [|y l0 IH0]; intros Hy; cbn [filter]; auto. pose proof (Hy y (or_introl eq_refl)). destruct (tnonce y =? tnonce t) eqn:E; [lia|]. apply IH0. intros; apply Hy; right; auto. }
+    apply G. auto.
+  - specialize (Hall _ Hin). destruct (tnonce z =? tnonce t) eqn:E; [lia|]. apply IH; auto.
+Qed.
+
+Lemma drop_all_all_eq : forall D q1 q2, all q1 = all q2 -> all (drop_all q1 D) = all (drop_all q2 D).
+Proof. unfold drop_all. induction D as [|d D IH]; intros q1 q2 H; cbn [fold_left]; auto. apply IH. cbn [all all_drop set_all set_priced]. rewrite H. auto. Qed.
+
+Lemma shrink_one_K : forall p a p', K p -> shrink_one p a = Ok p' -> K p'.
+Proof.
+  intros p a p' [HJ HS] H. unfold shrink_one in H. destruct (assoc a (pending p)) as [l|] eqn:P; [|discriminate].
+  destruct (tl_cap l (tl_len l - 1)) as [[drops l']|] eqn:C; [|discriminate]. inversion H; subst; clear H.
+  destruct (tl_cap_parts _ _ _ _ C) as (Pa & _ & _). pose proof (tl_cap_ok _ _ _ _ C) as Sp.
+  set (pb := set_pending p (assoc_set a l' (pending p))).
+  destruct (pshrink_drop_J p a l l' drops drops [] HJ P Sp) as [Jd _]; [rewrite app_nil_r; exact Pa|intros x _ []|]. fold pb in Jd.
+  match goal with |- K (fold_left ?f drops pb) => set (F := f) end.
+  assert (G : forall D q, pending (fold_left F D q) = pending q /\ queue (fold_left F D q) = queue q /\ all (fold_left F D q) = all (drop_all q D)).
+  { induction D as [|d D IH]; intros q; cbn [fold_left]; [auto|]. destruct (IH (F q d)) as (A & B & E).
+    assert (Hq : pending (F q d) = pending q /\ queue (F q d) = queue q /\ all (F q d) = all (all_drop q (thash d))).
+    { unfold F. cbv zeta. match goal with |- context [if ?c then _ else _] => destruct c end; repeat split; reflexivity. }
+    destruct Hq as (A1 & B1 & E1). rewrite A, B, E, A1, B1. repeat split; auto. apply (drop_all_all_eq D _ _ E1). }
+  destruct (G drops pb) as (A & B & E). destruct (drop_all_pq drops pb) as [A' B']. split.
+  - eapply J_same with (p := drop_all pb drops); eauto; congruence.
+  - eapply QS_same; [exact HS|]. rewrite B. reflexivity.
+Qed.
+
+Lemma demote_account_K : forall o p a p', K p -> demote_account o p a = Ok p' -> K p'.
+Proof.
+  intros o p a p' [HJ HS] H. unfold demote_account in H. destruct (assoc a (pending p)) as [l|] eqn:P; [|inversion H; subst; split; auto].
+  destruct (tl_forward l (cur_nonce p a)) as [old l1] eqn:F.
+  destruct (tl_forward_ok _ _ _ _ F) as [Sp1 _]. pose proof (tl_forward_parts _ _ _ _ F) as Pa1.
+  set (p1 := drop_all (set_pending p (assoc_set a l1 (pending p))) old) in *.
+  destruct (drop_all_pq old (set_pending p (assoc_set a l1 (pending p)))) as [Pp1 Pq1]. fold p1 in Pp1, Pq1. cbn [pending queue set_pending] in Pp1, Pq1.
+  assert (J1 : J p1 []). { eapply (pshrink_drop_J p a l l1 [] old []); eauto. rewrite app_nil_r. exact Pa1. }
+  assert (S1 : QS p1) by (eapply QS_same; eauto).
+  assert (Q1 : assoc a (pending p1) = Some l1) by (rewrite Pp1; apply assoc_set_same).
+  (* queue[a] of p is disjoint from what was pending *)
+  assert (Dq : forall x u, In x (items l) -> in_queue p1 a u -> tnonce u <> tnonce x).
+  { intros x u Hx Hu. unfold in_queue in Hu. rewrite Pq1 in Hu. destruct HJ as ((_ & _ & HD) & _ & _). intros E. apply (HD a x u); auto. exists l; auto. }
+  pose proof HJ as ((HP0 & _ & _) & _ & _). destruct (HP0 _ _ P) as [Hs0 Hf0]. destruct (Sp1 Hs0) as (Hs1 & I1 & _ & _).
+  clearbody p1. clear Pp1 Pq1 HS.
+  destruct (tl_filter o l1 (cur_balance p1 a) (maxgas p1)) as [[drops invs] l2] eqn:Fi.
+  pose proof (tl_filter_ok _ _ _ _ _ _ _ Fi) as Sp2. destruct (tl_filter_parts _ _ _ _ _ _ _ Fi) as (Pa2 & _ & _ & Nd2).
+  destruct (Sp2 Hs1) as (Hs2 & I2 & Iv & Dv).
+  set (p2 := drop_all (set_pending p1 (assoc_set a l2 (pending p1))) drops) in *.
+  destruct (drop_all_pq drops (set_pending p1 (assoc_set a l2 (pending p1)))) as [Pp2 Pq2]. fold p2 in Pp2, Pq2. cbn [pending queue set_pending] in Pp2, Pq2.
+  destruct (pshrink_drop_J p1 a l1 l2 invs drops invs J1 Q1 Sp2 Pa2 (tl_filter_disj _ _ _ _ _ _ _ Fi)) as [J2 F2]. fold p2 in J2, F2.
+  assert (S2 : QS p2) by (eapply QS_same; eauto).
+  assert (Q2 : assoc a (pending p2) = Some l2) by (rewrite Pp2; apply assoc_set_same).
+  destruct (requeue_J invs p2 a [] J2) as (J3 & P3 & _); auto.
+  { rewrite Forall_forall in *. intros x Hx. apply Hf0. apply I1. apply Iv. auto. }
+  { intros x u Hx (lp & Hlp & Hu). rewrite Q2 in Hlp. inversion Hlp; subst. intros E. apply (Dv x u); auto. }
+  { intros x u Hx Hu. apply (Dq x u); auto. unfold in_queue in *. rewrite <- Pq2. auto. }
+  pose proof (enqueue_fold_QS invs p2 S2) as S3.
+  set (p3 := fold_left (fun q x => snd (enqueue_tx q x)) invs p2) in *.
+  assert (Q3 : assoc a (pending p3) = Some l2) by (rewrite P3; auto).
+  assert (Dq3 : forall x u, In x (items l2) -> in_queue p3 a u -> tnonce u <> tnonce x).
+  { intros x u Hx Hu. destruct J3 as ((_ & _ & HD3) & _ & _). intros E. apply (HD3 a x u); auto. exists l2; auto. }
+  clearbody p3. clearbody p2.
+  apply bind_ok in H. destruct H as ([p4 l4] & H1 & H2).
+  assert (K4 : J p4 [] /\ QS p4 /\ assoc a (pending p4) = Some l4).
+  { destruct ((0 <? tl_len l2) && match tl_get l2 (cur_nonce p a) with None => true | Some _ => false end); [|inversion H1; subst; auto].
+    destruct (tl_cap l2 0) as [[caps l3]|] eqn:C; [|discriminate]. inversion H1; subst; clear H1.
+    destruct (tl_cap_parts _ _ _ _ C) as (Pa4 & _ & Nd4). pose proof (tl_cap_ok _ _ _ _ C) as Sp4. destruct (Sp4 Hs2) as (_ & _ & Ic & Dc).
+    set (pb := set_pending p3 (assoc_set a l4 (pending p3))).
+    destruct (pshrink_drop_J p3 a l2 l4 caps [] caps J3 Q3 Sp4 Pa4) as [Jb Fb]. { intros x []. }
+    change (drop_all (set_pending p3 (assoc_set a l4 (pending p3))) []) with pb in Jb, Fb.
+    assert (Qb : assoc a (pending pb) = Some l4) by (unfold pb; cbn [pending set_pending]; apply assoc_set_same).
+    destruct (requeue_J caps pb a [] Jb) as (J4 & P4 & _); auto.
+    { rewrite Forall_forall in *. intros x Hx. apply Hf0. apply I1. apply I2. apply Ic. auto. }
+    { intros x u Hx (lp & Hlp & Hu). rewrite Qb in Hlp. inversion Hlp; subst. intros E. apply (Dc x u); auto. }
+    split; [exact J4|split; [apply enqueue_fold_QS; eapply QS_same; [exact S3|reflexivity]|rewrite P4; exact Qb]]. }
+  destruct K4 as (J4 & S4 & Q4). inversion H2; subst. destruct (tl_empty l4) eqn:Em; [|split; auto]. split.
+  - eapply J_pdel with (p := p4); eauto; try reflexivity. intros l0 Hl0. rewrite Q4 in Hl0. inversion Hl0; subst. apply tl_empty_items; auto.
+  - eapply QS_same; eauto. reflexivity.
+Qed.
